@@ -105,7 +105,8 @@ def run(ctx, scale=1):
         "select a1 + ~ b2 from t3", "select a1 = not b2 from t3", "select sum(x1) filter (where c2 > 3) over (partition by p4 order by o5) from t6",
         "select a1 from t2 union select b3 from u4 fetch first 5 rows only", "select a1 from t2 union select b3 from u4 for update of z9",
         "select a1 between b2 and c3 from t4", "select a1 from t2 where x3 in (select y4 from u5) and z6 like 's7'",
-        "insert into t1 (c2, c3) values (4, 's5'), (6, 's7')", "update t1 set c2 = 3, c4 = 's5' where c6 = 7",
+        "insert into t1 (c2, c3) values (4, 's5'), (6, 's7')", "insert into t1 (col2) values (4), (6)", "insert into t1 (col2) values ('s4'), ('s6'), ('s8')",
+        "replace into t1 (col2) values (4), (6)", "insert into t1 (col2) values (4)", "with w1 as (select 5 as five2) insert into target3 (total4) values (10), (20)", "update t1 set c2 = 3, c4 = 's5' where c6 = 7",
         "create table t1 (c2 int not null default 3, c4 varchar(10) default 's5', primary key (c2))",
         # comment markers inside literals, quoted names and line comments are content, not comments
         "select a1 from t2 where p3 = '/*' and q4 = 31 and r5 = '*/'", "select '--', b2, '#', c3 from t4 where d5 = '/* x */' or e6 = 7",
